@@ -578,6 +578,31 @@ def random_typed(rng):
   may_refuse = any(h[0] == 'M' and not (2 <= h[1] <= 3) for h in left_hypers(t))
   return t, may_refuse
 
+# ---- every ordered pair of candidate kinds under one choice (first-match encoding depends on the ORDER of the candidates) ------
+def pair_pool():
+  one = lambda cs: ['1', cs, None, None]
+  return [('int1', L_(1)), ('float1', L_(1.0)), ('true', L_(True)), ('int2', L_(2)), ('str', L_('a')), ('none', L_(None)),
+          ('list', ['l', [L_(1)]]), ('list2', ['l', [L_(1), L_(2)]]), ('empty-list', ['l', []]),
+          ('dict', ['D', [['a', L_(1)]]]), ('empty-dict', ['D', []]),
+          ('dict2', ['D', [['a', L_(1)], ['b', L_(2)]]]), ('dict2-reordered', ['D', [['b', L_(2)], ['a', L_(1)]]]),
+          ('object', ['O', 0, [['x', L_(1)], ['y', L_(2)]]]), ('object-other-class', ['O', 1, [['p', L_(1)]]]),
+          ('base', ['O', 6, [['x', L_(1)], ['y', L_(2)]]]), ('derived', ['O', 7, [['x', L_(1)], ['y', L_(2)]]]),
+          ('derived-extra-field', ['O', 8, [['x', L_(1)], ['y', L_(2)], ['z', L_(0)]]]), ('grandchild', ['O', 9, [['x', L_(1)], ['y', L_(2)]]]),
+          ('oneof', one([L_(1), L_(3)])), ('manyof', ['M', 2, [L_(1), L_(2)], True, False, None, None]),
+          ('floatv', ['F', 0.0, 2.0, None, None]), ('custom-codepoints', ['X', 0, None, None]), ('custom-word', ['X', 1, None, None]),
+          ('list-with-oneof', ['l', [one([L_(1), L_(2)])]]), ('dict-with-oneof', ['D', [['a', one([L_(1), L_(2)])]]]),
+          ('base-with-oneof', ['O', 6, [['x', one([L_(1), L_(2)])], ['y', L_(2)]]]), ('derived-with-oneof', ['O', 7, [['x', one([L_(1), L_(2)])], ['y', L_(2)]]])]
+
+def pair_sweep():
+  """(label, template): oneof([a, b]) and manyof(2, [a, b], distinct=False) for every ordered pair of candidate kinds."""
+  out = []
+  pool = pair_pool()
+  for (la, a), (lb, b) in itertools.product(pool, pool):
+    a, b = json.loads(json.dumps(a)), json.loads(json.dumps(b))
+    out.append(('%s,%s/oneof' % (la, lb), ['D', [['v', ['1', [a, b], None, None]]]]))
+    out.append(('%s,%s/manyof' % (la, lb), ['M', 2, [a, b], False, False, None, None]))
+  return out
+
 def sweep_templates():
   out = []
   for (pl, p), (cl, c), (wl, w) in itertools.product(sweep_placeholders(), sweep_contexts(), SWEEP_WHERES):
@@ -923,6 +948,34 @@ def process_template(job):
           if pg.eq(L[i], L[j]):
             rec.hit('C13/iter-duplicates/%s' % feat, 'pg.eq holds between values %d and %d of pg.iter' % (i, j), icase)
       unchanged('iter')
+  # random sampling (pg.random_sample = pg.iter with geno.Random): the proposed DNA must be valid for the template's specification
+  # and the yielded value must be its decoding; on finite spaces the pair goes through the model as well
+  has_custom = '"X"' in json.dumps(s)
+  if len(s[1]) > 0 and not has_custom and time.time() < P['deadline']:
+    okr, R = attempt(lambda: list(pg.iter(hv, P['nsample'], pg.geno.Random(seed=ti), where=fn, force_feedback=True)))
+    rec.oracle += 1
+    rcase = dict(case0, op='random_sample', seed=ti)
+    if not okr:
+      rec.hit('C13/random-sample-raises/%s/%s' % (type(R).__name__, feat), 'pg.iter(..., geno.Random(seed=%d)) raises %s: %s on %s (%s)' % (ti, type(R).__name__, str(R)[:160], td, wd), rcase)
+    else:
+      oks, R2 = attempt(lambda: list(pg.random_sample(hv, P['nsample'], where=fn, seed=ti)))
+      if not oks or len(R2) != len(R) or any(not pg.eq(a, b[0]) for a, b in zip(R2, R)):
+        rec.hit('C13/random-sample/differs-from-iter/%s' % feat, 'pg.random_sample(seed=%d) differs from pg.iter with geno.Random(seed=%d) on %s (%s)' % (ti, ti, td, wd), rcase)
+      for v, fb in R:
+        tree = G.dna_to_tree(fb.dna)
+        sd = G.parse_tree(s, tree) if fin else None
+        okv, _ = attempt(lambda: sp.validate(fb.dna))
+        okx, vx = attempt(lambda: from_pg(v))
+        if not okv or (fin and sd is None):
+          rec.hit('C13/random-sample/invalid-dna/%s' % feat, 'random sampling proposed %s, not a valid DNA of the template %s (%s)' % (fb.dna, td, wd), rcase)
+        elif not okx or not shape_ok(w, t, vx) or any(weval(w, h) for h in left_hypers(vx)):
+          rec.hit('C13/random-sample/value/%s' % feat, 'random sampling yields %r for %s: not a decoding of the template %s (%s)' % (v, fb.dna, td, wd), rcase)
+        elif fin:
+          oke, de = attempt(lambda: tm.encode(v))
+          r1 = res_value(True, v)
+          rec.add([1, qtr, wtr, ttr, G.sdna_tr(sd)], [1, r1, r1, [res_dna(oke, de)]], dict(op='random_sample', template=td, where=wd, dna=str(fb.dna)))
+          rec.count(('rand', trlib.to_line(wtr), trlib.to_line(ttr), trlib.to_line(G.sdna_tr(sd))), nontrivial=nontriv, kind='random_sample')
+      unchanged('random_sample')
   return rec
 
 # ------------------------------------------------------------------------------------------------
@@ -1021,7 +1074,7 @@ def run(ctx):
   qtr = [int(q['list_dict'])]
   ctx.extra['quirk_flags_from_witness_replay'] = q
   import time
-  P = dict(limit=ctx.scale(200, 200), nrand=ctx.scale(50, 50), ncwork=ctx.scale(1, 3), ncorr=ctx.scale(6, 20), npwork=ctx.scale(1, 3), npert=ctx.scale(6, 20))
+  P = dict(limit=ctx.scale(200, 200), nrand=ctx.scale(50, 50), ncwork=ctx.scale(1, 3), ncorr=ctx.scale(6, 20), npwork=ctx.scale(1, 3), npert=ctx.scale(6, 20), nsample=ctx.scale(2, 6))
   ctx.extra['per_template_parameters'] = dict(P)
   budget = int(os.environ.get('C13_IMPL_BUDGET', ctx.scale(55, 1200)))
   P['deadline'] = time.time() + budget
@@ -1037,6 +1090,14 @@ def run(ctx):
     sweep = [x for kind in sorted(by_kind) for x in rng.sample(by_kind[kind], min(6, len(by_kind[kind])))]
   ctx.extra['sweep']['run_in_this_tier'] = len(sweep)
   templates = [(l, t, w) for l, t, w in CORPUS] + [('sweep:' + l, t, w) for l, t, w in sweep]
+  pairs = pair_sweep()
+  ctx.extra['pair_sweep'] = dict(what='oneof([a, b]) and manyof(2, [a, b], distinct=False) for every ORDERED pair of %d candidate kinds (leaves equal under ==, lists, dicts in both key orders, '
+                                      'empty containers, objects of unrelated and of inheritance-related classes, nested oneof / manyof / floatv / customs, containers and objects with a placeholder inside)' % len(pair_pool()),
+                                 templates=len(pairs))
+  if not ctx.thorough and not os.environ.get('C13_ALLPAIRS'):
+    pairs = [pairs[i] for i in sorted(rng.sample(range(len(pairs)), 120))]
+  ctx.extra['pair_sweep']['run_in_this_tier'] = len(pairs)
+  templates += [('pairs:' + l, t, ['none']) for l, t in pairs]
   tsweep = typed_sweep()
   ctx.extra['typed_sweep'] = dict(what='placeholders bound to value specs (Int range, Str, Float range, Enum, List(Int, min 2, max 3), Dict schema): manyof k = 1..4 in all four modes, '
                                        'oneof / nested oneof / floatv / custom / lists / dicts / typed objects as candidates, and non-conforming placeholders that must be refused', templates=len(tsweep))
@@ -1046,7 +1107,7 @@ def run(ctx):
   for i in range(ctx.scale(60, 1500)):
     t, mr = random_typed(rng)
     templates.append(('typed-random:%d%s' % (i, '?' if mr else ''), t, random_where(rng, t) if rng.random() < 0.4 else ['none']))
-  for i in range(ctx.scale(260, 6000)):
+  for i in range(ctx.scale(220, 6000)):
     g = TGen(rng, hyper_budget=rng.choice([1, 2, 2, 3, 3, 4, 5]), p_collide=rng.choice([0.0, 0.0, 0.1, 0.3]))
     t = g.value(rng.choice([1, 2, 2, 3, 3]), p_h=0.6)
     if not left_hypers(t) and rng.random() < 0.8:
@@ -1079,7 +1140,7 @@ def replay(ctx, rp):
   py()
   q = detect_quirks()
   import time
-  P = dict(limit=200, nrand=50, ncwork=0, ncorr=0, npwork=0, npert=0, deadline=time.time() + 600)
+  P = dict(limit=200, nrand=50, ncwork=0, ncorr=0, npwork=0, npert=0, nsample=3, deadline=time.time() + 600)
   rec = process_template((0, 'replay', c['template'], c['where'], 1, [int(q['list_dict'])], P))
   hits = [ev for ev in rec.events if ev[0] == 'hit']
   known = {f['signature'] for f in ctx.open_findings()} if rp.get('ignore_known') else set()
